@@ -3752,6 +3752,7 @@ class PyCdlib:
         if child.inode is None:
             num_bytes_to_remove += self._remove_child_from_dr(child,
                                                               child.index_in_parent)
+            num_bytes_to_remove += self._remove_rr_ce_entry(child)
         else:
             self._check_inode_against_eltorito(child.inode)
             while child.inode.linked_records:
